@@ -31,7 +31,7 @@ def shards(tier, seed):
 
 def universe(seed, uid):
     rng = core.rng_for(seed, PROP, 'uni%d' % uid)
-    o = gen.Opts(attrs=False, nested_arrays=0.0, max_types=4, styles=('wrapped', 'wrapped', 'wrapped', 'bare', 'out_bare', 'out_bare', 'empty'))
+    o = gen.Opts(attrs=False, nested_arrays=0.0, max_types=4, styles=('wrapped', 'wrapped', 'wrapped', 'bare', 'out_bare', 'out_bare', 'empty', 'empty'), memberless_subclasses=True)
     return gen.rand_universe(rng, o, uid=uid)
 
 
